@@ -14,6 +14,7 @@ THEOREMS = [
     "Remoc.Table.Sys.conforming_no_protocol_error",
     "Remoc.Table.Sys.deliver_enabled",
     "Remoc.Table.Sys.conforming_no_panic",
+    "Remoc.Wire.decoded_hello_minimums",
 ]
 RULE = ("one real endpoint; the harness plays the peer and injects frames: a valid prefix (handshake incl. frames that must be "
         "ignored, ports opened from both sides, data within credit, local receive calls) followed by odd-but-legal frames and "
